@@ -17,12 +17,12 @@ from concurrent.futures import ThreadPoolExecutor
 from common import PY, REPO, Rng, scratch_dir
 
 LEVEL = "proof"
-THEOREMS = ["C18_history", "C18_init", "C18_tags", "C18_generated_good", "C18_execmodule_violates"]
+THEOREMS = ["C18_history", "C18_init", "C18_tags", "C18_generated_good", "C18_execmodule_violates", "C18_nowrite_skip_violates"]
 RULE = (
     "histories of 2..4 interpreter runs over one cache directory; per run: the hooked subset of {a, b, c} "
     "(a imports b at its top level), the typechecker (two spies or None), the import order, and optionally "
     "a source edit of one module before the run (changing the mtime, or changing only the size), optionally a "
-    "hooked module that does not compile imported (and caught) first; quick: 9 fixed histories that cover hooked->unhooked, "
+    "hooked module that does not compile imported (and caught) first, optionally no bytecode writing in that run (-B; it still reads); quick: 11 fixed histories that cover hooked->unhooked, "
     "unhooked->hooked, nested imports in both directions, checker change and edit, plus seeded random "
     "ones; non-trivial = the run re-reads a module cached by an earlier run under a different "
     "configuration; distinct by history"
@@ -42,8 +42,8 @@ SPY = "import os\nSEEN = []\ndef check(fn, *a, **k):\n    SEEN.append(fn.__modul
 
 RUNNER = textwrap.dedent('''
     import sys, json, importlib
-    sys.dont_write_bytecode = False
     root, repo, prefix, spec = sys.argv[1], sys.argv[2], sys.argv[3], json.loads(sys.argv[4])
+    sys.dont_write_bytecode = bool(spec.get("nowrite"))
     sys.path[:0] = [root, repo]
     import jaxtyping
     hook = None
@@ -100,7 +100,8 @@ def run_history(root, prefix, history):
             m = run["edit_keep_mtime"]
             versions[m] = versions[m] * 10 + 7      # one more digit: the size changes, the mtime does not
             write_sources(root, prefix, versions, mtimes)
-        p = subprocess.run([PY, "-c", RUNNER, root, REPO, prefix, json.dumps(run)], env=env, capture_output=True, text=True, timeout=300)
+        env_run = dict(env, PYTHONDONTWRITEBYTECODE="1") if run.get("nowrite") else env
+        p = subprocess.run([PY, "-c", RUNNER, root, REPO, prefix, json.dumps(run)], env=env_run, capture_output=True, text=True, timeout=300)
         line = next((l for l in p.stdout.splitlines() if l.startswith("RESULT ")), None)
         if line is None:
             outs.append({"error": p.stderr[-800:]})
@@ -144,6 +145,11 @@ FIXED = [
     # an edit that changes the size of the source but not its mtime, hooked and un-hooked
     [{"hooked": ["c"], "checker": "spy_a.check", "order": ["c", "b"]}, {"hooked": ["c"], "checker": "spy_a.check", "order": ["c", "b"], "edit_keep_mtime": "c"},
      {"hooked": ["c"], "checker": "spy_a.check", "order": ["c", "b"], "edit_keep_mtime": "b"}],
+    # runs that write no bytecode (-B) still read it: un-hooked writing run, then hooked read-only run, and the converse
+    [{"hooked": [], "checker": None, "order": ["a", "c"]}, {"hooked": ["a", "c"], "checker": "spy_a.check", "order": ["a", "c"], "nowrite": True},
+     {"hooked": ["b"], "checker": "spy_a.check", "order": ["a", "c"], "nowrite": True}],
+    [{"hooked": ["b", "c"], "checker": "spy_b.check", "order": ["a", "c"]}, {"hooked": [], "checker": None, "order": ["a", "c"], "nowrite": True},
+     {"hooked": ["c"], "checker": "spy_a.check", "order": ["c"], "nowrite": True}, {"hooked": ["c"], "checker": "spy_a.check", "order": ["c"]}],
     # None checker then a real spy
     [{"hooked": ["a", "b", "c"], "checker": None, "order": ["c", "a"]}, {"hooked": ["a", "b", "c"], "checker": "spy_a.check", "order": ["a", "c"]}],
 ]
@@ -161,6 +167,8 @@ def gen_history(rng):
             run["edit_keep_mtime"] = rng.choice(["a", "b", "c"])
         if rng.chance(1, 5):
             run["broken"] = True
+        if rng.chance(1, 4):
+            run["nowrite"] = True
         h.append(run)
     return h
 
@@ -169,8 +177,8 @@ def evaluate(out, drv, facts, history, outs, idx):
     versions_seq = []
     runs_model = []
     for run, o in zip(history, outs):
-        runs_model.append({"versions": o["_versions"], "loads": loads_of(run)})
-    scope = facts["hook"]["patchScope"] if facts["hook"]["patchScope"] in ("get_code", "exec_module") else "get_code"
+        runs_model.append({"versions": o["_versions"], "loads": loads_of(run), "writes": not run.get("nowrite")})
+    scope = facts["hook"]["patchScope"] if facts["hook"]["patchScope"] in ("get_code", "exec_module", "get_code_if_writing") else "get_code"
     w = drv.ask({"cmd": "cache", "scope": scope, "runs": runs_model})
     reread = any(set(history[i]["order"]) & set(history[j]["order"]) or "a" in history[i]["order"] for i in range(len(history)) for j in range(i))
     out.case(json.dumps(history, sort_keys=True), reread, sample={"history": history, "observed": [{k: v for k, v in o.items() if not k.startswith("_")} for o in outs]})
